@@ -14,7 +14,6 @@ import (
 	"encoding/json"
 	"fmt"
 	"io"
-	"reflect"
 	"sort"
 	"strings"
 )
@@ -24,6 +23,9 @@ func hashOf(alg string, b []byte) string {
 	case "sha512":
 		s := sha512.Sum512(b)
 		return "sha512:" + hex.EncodeToString(s[:])
+	case "sha384":
+		s := sha512.Sum384(b)
+		return "sha384:" + hex.EncodeToString(s[:])
 	default:
 		s := sha256.Sum256(b)
 		return "sha256:" + hex.EncodeToString(s[:])
@@ -43,6 +45,8 @@ func digestAlg(d string) (string, bool) {
 		want = 64
 	case "sha512":
 		want = 128
+	case "sha384":
+		want = 96
 	default:
 		return "", false
 	}
@@ -411,5 +415,3 @@ func cloneDescs(dl []XDesc) []XDesc {
 	}
 	return out
 }
-
-var _ = reflect.DeepEqual
